@@ -234,11 +234,11 @@ func cmdCheck(args []string) {
 			proved++
 		}
 	}
-	if exp > 0 && total < exp-exp/10 {
+	if exp > 0 && total < exp-exp*2/5 {
 		violations++
 		path := filepath.Join(replayDir, "obligation-count.json")
-		os.WriteFile(path, []byte(fmt.Sprintf(`{"obligation":"count","expected_at_least":%d,"generated":%d,"what":"the proof of %s generates far fewer obligations than on the reference tree: contracts no longer bind to the code"}`, exp-exp/10, total, id)), 0o644)
-		fmt.Printf("VIOLATION property=%s replay=%s obligation=count kind=vacuous generated=%d expected>=%d no-failing-input-found\n", id, path, total, exp-exp/10)
+		os.WriteFile(path, []byte(fmt.Sprintf(`{"obligation":"count","expected_at_least":%d,"generated":%d,"what":"the proof of %s generates far fewer obligations than on the reference tree: contracts no longer bind to the code"}`, exp-exp*2/5, total, id)), 0o644)
+		fmt.Printf("VIOLATION property=%s replay=%s obligation=count kind=vacuous generated=%d expected>=%d no-failing-input-found\n", id, path, total, exp-exp*2/5)
 	}
 	writeEvidence(*verif, id, *tier, seed, res, total, proved, inconclusive, violations, mutRes)
 	fmt.Printf("govc check %s (%s): %d obligations, %d discharged, %d known-finding, %d violations, %d functions, %.1fs\n", id, *tier, total, proved, total-proved-len(res.Failed), violations, len(res.Funcs), res.Wall)
